@@ -372,9 +372,19 @@ def shrink_candidates(line):
                 cands.append("x" + h[:-2])
         elif "," in w:
             parts = w.split(",")
-            for k in range(len(parts)):
-                rest = parts[:k] + parts[k + 1:]
-                cands.append(",".join(rest) if rest else ".")
+            if len(parts) > 16:
+                # long lists (scripts of hundreds of replies, clocks): halves and quarters first, then a few single drops
+                n = len(parts)
+                for a, b in ((0, n // 2), (n // 2, n), (0, n // 4), (n - n // 4, n), (n // 4, n // 2), (n // 2, n - n // 4)):
+                    rest = parts[:a] + parts[b:]
+                    cands.append(",".join(rest) if rest else ".")
+                for k in list(range(0, 6)) + list(range(n - 6, n)):
+                    rest = parts[:k] + parts[k + 1:]
+                    cands.append(",".join(rest) if rest else ".")
+            else:
+                for k in range(len(parts)):
+                    rest = parts[:k] + parts[k + 1:]
+                    cands.append(",".join(rest) if rest else ".")
         elif w.isdigit() and int(w) > 0:
             v = int(w)
             cands += [str(0), str(v // 2), str(v - 1)]
@@ -388,7 +398,10 @@ def shrink_candidates(line):
 def shrink(line, still_fails, budget=40):
     """Greedy shrinking: keep any simplification on which the failure persists."""
     cur = line
+    t_end = time.time() + 45       # shrinking is a convenience for the reader of the replay: bounded in time
     for _ in range(budget):
+        if time.time() > t_end:
+            break
         cands = list(dict.fromkeys(shrink_candidates(cur)))
         if not cands:
             break
